@@ -121,8 +121,7 @@ let init_world fs os um = match fs, os with
   | "memfs", "linux" -> init_world_linux (n_of_int um)
   | _ -> failwith "fs: unsupported fs/os"
 
-let run () =
-  iter_lines (fun line ->
+let run_line line =
     match split_bar line with
     | hd :: ops ->
         (match split_ws hd with
@@ -146,6 +145,9 @@ let run () =
              with Exit -> ());
              print_endline (String.concat " | " (List.rev !outs))
          | _ -> print_endline "BADLINE")
-    | _ -> print_endline "BADLINE")
+    | _ -> print_endline "BADLINE"
+
+(* lines whose header names another file system are handled by that file system's driver (drv_orefa.ml) *)
+let run () = iter_lines run_line
 
 let () = Conv.register "fs" run
